@@ -214,7 +214,8 @@ var clauses = map[string]map[string]bool{
 	"C04": {"stale-output-at-quiescence": true, "no-output-at-quiescence": true, "runs-overlap": true, "compute-after-stop": true,
 		"run-in-progress-when-stop-returned": true, "no-quiescence": true, "panic-in-harness-or-code-under-test": true},
 	"C08": {"stale-output-at-quiescence": true, "cleanup-ran-twice": true, "cleanup-not-exactly-once": true,
-		"superseded-resource-not-cleaned": true, "timer-cleanup-not-exactly-once": true, "no-quiescence": true,
+		"superseded-resource-not-cleaned": true, "timer-cleanup-not-exactly-once": true,
+		"resource-released-while-current-computation-depends-on-it": true, "no-quiescence": true,
 		"panic-in-harness-or-code-under-test": true},
 }
 
